@@ -18,7 +18,7 @@ EXHAUSTIVE_GENS = ('script',)
 DECIDING_REQUIRED = ('subscriber_logs_checked', 'futures_checked', 'callbacks_observed', 'histories_with_connection_end')
 BUDGET_S = {'quick': 100, 'thorough': 2400}
 
-DEPTH = {'quick': {'rr': 4, 'stream': 4, 'channel': 3}, 'thorough': {'rr': 6, 'stream': 5, 'channel': 4}}
+DEPTH = {'quick': {'rr': 5, 'stream': 4, 'channel': 3}, 'thorough': {'rr': 6, 'stream': 5, 'channel': 4}}
 BATCH = 60
 TERMINALS = ('on_next_complete', 'on_complete', 'on_error')
 
@@ -50,7 +50,7 @@ def histories(m, r, d):
 
 
 def plan(tier, seed):
-    return [('script', len(script_cases(tier))), ('mix', 400 if tier == 'quick' else 20000)]
+    return [('script', len(script_cases(tier))), ('mix', 2500 if tier == 'quick' else 40000)]
 
 
 def check_sub_log(log):
